@@ -61,7 +61,7 @@ def setters_ob(name, ks=-1, ku=-1, kh=-1, kx=-1, kp=-1, kq=-1, kf=-1, port=None,
 def obligations(tier):
     q = tier == "quick"
     RT, SP = ["VP_ONLY_ROUNDTRIP"], ["VP_ONLY_SPLIT"]
-    ns, nr, na, nu = (5, 4, 4, 3) if q else (7, 6, 6, 5)
+    ns, nr, na, nu = (5, 4, 3, 2) if q else (7, 6, 6, 5)
     T = 900 if q else 2400
     obs = [
         parse_ob("split_any", ns + 1, extra=SP + ["VP_WIT_SCHEME"], timeout=T,
@@ -74,15 +74,16 @@ def obligations(tier):
                  desc="parse-join-parse: '//' + any string <= %d bytes, all 8 flag combinations" % na),
         parse_ob("unix", nu, prefix="//unix:", flags=8, extra=["VP_WIT_UNIX"], timeout=T,
                  desc="components + parse-join-parse: '//unix:' + any string <= %d bytes, UNIX_SOCKET" % nu),
+        dict(parse_ob("join_limit", 3 if q else 5, timeout=T, desc="evhttp_uri_join size limit: parsed URI of any string <= %d bytes, any limit, all flags" % (3 if q else 5)), entry="harness_join_limit", unwind=2 * (3 if q else 5) + 4),
         setters_ob("set_noauth", ks=1, kp=3, extra=["VP_WIT_REL"], timeout=T, desc="setters+join, no authority: scheme<=1, path<=3 bytes, all flags"),
         setters_ob("set_qf", kp=1, kq=1, kf=1, extra=["VP_WIT_REL"], timeout=T, desc="setters+join: path<=1 query<=1 fragment<=1, all flags"),
         setters_ob("set_nohost", ku=1, port=(-2, 9), kp=1, timeout=T, desc="setters+join, userinfo/port without host: userinfo<=1, port in [-2,9], path<=1"),
-        setters_ob("set_bigport", kh=1, port=(65534, 65537), timeout=T, desc="setters+join: host<=1, port in [65534,65537]"),
+        setters_ob("set_bigport", kh=0 if q else 1, port=(65534, 65537), timeout=T, desc="setters+join: host<=%d, port in [65534,65537]" % (0 if q else 1)),
     ]
     if q:
         obs += [
-            setters_ob("set_host", ku=1, kh=1, port=(-2, 9), kp=2, extra=["VP_WIT_FULL"], timeout=T, desc="setters+join: userinfo<=1 host<=1 port in [-2,9] path<=2, all flags"),
-            setters_ob("set_unix", ku=0, kh=0, kx=1, port=(-1, 0), kp=1, flags=8, timeout=T, desc="setters+join, UNIX_SOCKET: userinfo<=0 host<=0 socket<=1 port in [-1,0] path<=1"),
+            setters_ob("set_host", ku=1, kh=1, port=(-2, 9), kp=1, extra=["VP_WIT_FULL"], timeout=T, desc="setters+join: userinfo<=1 host<=1 port in [-2,9] path<=1, all flags"),
+            setters_ob("set_unix", kh=0, kx=1, port=(-1, 0), kp=1, flags=8, timeout=T, desc="setters+join, UNIX_SOCKET: host<=0 socket<=1 port in [-1,0] path<=1"),
         ]
     else:
         obs += [
